@@ -39,4 +39,24 @@ PROPS = {
         ],
         "partial": [],
     },
+    "C05": {
+        "profiles": ["debug"],
+        "rule": "pairs of types in an environment: (1) every ordered pair of the 32 types of depth <= 1 over {nat,int,null,reserved,empty,bool,A,B} x {opt,vec,record,variant} in sampled two-definition environments "
+                "(thorough: all pairs in 400 environments; quick: a third of the pairs in 12), (2) random recursive environments of 0-6 definitions with pairs related by 0-3 random upgrade steps in either direction, "
+                "(3) histories of 2-5 queries sharing one memo, including records that probe a pair under opt before using it directly, (4) services through the text-level upgrade check; "
+                "a request is non-trivial when the two types differ syntactically; distinct = distinct request lines",
+        "trusted": [
+            "the algorithm model (Sub.subAlg / Sub.eqAlg) is hand-written from subtype.rs; HashMap/HashSet iteration order is assumed irrelevant (lookups only)",
+            "the spec answer in the correspondence is the executable greatest fixed point Sub.gfpCheck over the reachable pair set (search oracle, not itself proved equal to Sub)",
+            "depth budget 4000 stands in for the stack guard; `out` never occurs on the generated inputs",
+        ],
+        "assumptions": [
+            "Knot types (Rust-derived recursive types) do not cross the protocol; they are covered through TypeContainer environments in C01/C12",
+            "service_compatible is exercised on sources printed by candid::pretty::candid::compile; its parser/checker are the subject of C12-C14",
+        ],
+        "partial": [
+            "subAlg_sound / subAlg_complete (algorithm = greatest fixed point for every input and memo history) are not yet proved for the full language; the proved theorems cover the specification relation (monotone rule functional, fixed point, coinduction, reflexivity, top/bottom) and the probe discipline; agreement of the algorithm with the greatest fixed point is established by the correspondence only",
+            "transitivity is false in the specification itself (record {f:nat} <: record {} <: record {f:null}); not claimed",
+        ],
+    },
 }
